@@ -8,10 +8,10 @@ Open Scope Z_scope.
    advancing, closing or abandoning them in any order, entering and leaving open_array()
    contexts, reading and writing elements, and changing the length of the array (append /
    truncate, also inside contexts) -- of any length, with any number of generators and
-   contexts: no step touches a closed memory map (OCrash never occurs), and the protocol
-   invariant (exact user count; every active generator's map is open; the cached map exists
-   only while it has users; every open map is the cached one or still held by a generator)
-   is maintained. *)
+   contexts: no step reads through a closed memory map or beyond the present end of the file
+   (OCrash never occurs), and the protocol invariant (exact user count; the cached map exists
+   only while it has users, is then the only open map and is mapped at exactly the present
+   length; otherwise nothing is open) is maintained. *)
 Theorem C19_safe : forall acts n k,
   SInv (snd (sched_run (sched_init n k) acts)) /\ ~ In OCrash (fst (sched_run (sched_init n k) acts)).
 Proof. intros acts n k. apply sched_run_safe. apply sinv_init. Qed.
@@ -23,16 +23,14 @@ Theorem C19_no_leak : forall s, SInv s -> count_active (sc_gens s) = 0%nat -> sc
 Proof. exact no_leak. Qed.
 Print Assumptions C19_no_leak.
 
-(* coherence: a chunk is read through the one shared map at the moment it is returned,
-   so it shows every write made before; stated on the step function *)
-Theorem C19_chunk_is_current : forall s g m a b rest,
-  SInv s -> nth_error (sc_gens s) g = Some (GActive m ((a, b) :: rest)) ->
-  fst (sched_step s (AAdvance g)) = OChunk a b (chunk_obs (sc_data s) a b).
-Proof.
-  intros s g m a b rest (Hu & Hg & Hc & Hl) En. cbn [sched_step]. rewrite En. unfold advance_active.
-  rewrite Forall_forall in Hg. pose proof (Hg _ (nth_error_In _ _ En)) as Hm. cbn in Hm.
-  rewrite (mem_in _ _ Hm). reflexivity.
-Qed.
+(* coherence: a chunk is read through the object's current map at the moment it is returned,
+   so it shows every write made before and is a[frame] for the length the array has NOW;
+   stated on the step function *)
+Theorem C19_chunk_is_current : forall s g a b rest,
+  SInv s -> nth_error (sc_gens s) g = Some (GActive ((a, b) :: rest)) ->
+  fst (sched_step s (AAdvance g)) =
+    OChunk (Z.min a (sc_len s)) (Z.min b (sc_len s)) (chunk_obs (sc_data s) (Z.min a (sc_len s)) (Z.min b (sc_len s))).
+Proof. intros s g a b rest HI En. cbn [sched_step]. rewrite En. exact (advance_chunk s g a b rest HI En). Qed.
 Print Assumptions C19_chunk_is_current.
 
 (* the schedule that killed the interpreter on the pinned tree: g1 opens the map, g2
@@ -46,8 +44,8 @@ Example C19_regression :
   sc_open (snd (sched_run (sched_init 10 2) acts)) = [].
 Proof. vm_compute. split; reflexivity. Qed.
 
-(* the length changes inside a context while a generator is active: the generator keeps its
-   (old) map until it finishes, reads go through the renewed map, and in the end nothing is open *)
+(* the length changes inside a context while a generator is active: every reader goes through the
+   renewed map, and in the end nothing is open *)
 Example C19_resize :
   let acts := [AEnter; AStart 4 None None None true; AAdvance 0; AResize 12; ARead 3; AWrite 11 5; AAdvance 0;
                ARead 11; AExit; AAdvance 0; AAdvance 0] in
@@ -55,4 +53,14 @@ Example C19_resize :
     [ONothing; ONothing; OChunk 0 4 [0;2;3]; ONothing; OValue 3; ONothing; OChunk 4 8 [4;6;7]; OValue 5; ONothing;
      OChunk 8 10 [8;9;9]; OStop] /\
   sc_open (snd (sched_run (sched_init 10 1) acts)) = [] /\ sc_len (snd (sched_run (sched_init 10 1) acts)) = 12.
+Proof. vm_compute. repeat split; reflexivity. Qed.
+
+(* the array is truncated while a generator runs (this killed the interpreter with a bus error on
+   the pinned tree: the generator went on reading its old, longer map): the remaining frames are
+   clipped to the new length *)
+Example C19_shrink :
+  let acts := [AStart 4 None None None true; AAdvance 0; AResize 6; AAdvance 0; AAdvance 0; AAdvance 0] in
+  fst (sched_run (sched_init 10 1) acts) =
+    [ONothing; OChunk 0 4 [0;2;3]; ONothing; OChunk 4 6 [4;5;5]; OChunk 6 6 []; OStop] /\
+  sc_open (snd (sched_run (sched_init 10 1) acts)) = [].
 Proof. vm_compute. repeat split; reflexivity. Qed.
